@@ -404,7 +404,27 @@ def run_check(prop, mod, argv):
     import_repo()
     if a.replay:
         rec = json.load(open(a.replay))
-        return mod.replay(rec)
+        if rec.get("kind") == "no-failing-input-found":
+            print(f"replay of {prop}: no failing input was found; what no longer checks:")
+            for b in rec.get("no_longer_checks", []):
+                print("  -", b.get("kind"), b.get("fn", b.get("theorem", b.get("modules", ""))))
+                if b.get("detail"):
+                    print("      " + str(b["detail"])[-800:].replace("\n", "\n      "))
+            print("re-run: VERIF_SEED=%s ./check %s --tier %s" % (rec.get("seed"), prop, rec.get("tier")))
+            return 0
+        v = rec.get("violation", {})
+        if str(v.get("sig", "")).startswith("unexpected-exception"):
+            print("replay of", prop, ":", v.get("what"))
+            print((v.get("input") or {}).get("traceback", ""))
+            print("re-run: VERIF_SEED=%s ./check %s --tier %s" % (rec.get("seed"), prop, rec.get("tier")))
+            return 0
+        try:
+            return mod.replay(rec)
+        except Exception as e:  # noqa: BLE001
+            print(f"replay helper of {prop} could not re-execute this record ({type(e).__name__}: {e}); the record:")
+            print(json.dumps(rec.get("violation"), indent=1)[:4000])
+            print("re-run: VERIF_SEED=%s ./check %s --tier %s" % (rec.get("seed"), prop, rec.get("tier")))
+            return 0
     ctx = Ctx(prop, tier, seed)
     try:
         return _run(ctx, mod)
